@@ -148,6 +148,13 @@ def run_unit(spec):
             src = Source(ctx, [Enc(("ent", T), x), Raw(ctx.bytes_const("tail"))], faulty=faulty)
             return [src], []
         _observe(f"frame/L2/{short}/read_entity", r, make_r, reg, faulty, out)
+        if T.__flexible__ and not faulty:
+            # every path of the reader, including the ones only foreign or malformed input reaches
+            def make_g(ctx):
+                src = Source(ctx, [Raw(ctx.bytes_const("input"))])
+                src.general = True
+                return [src], []
+            _observe(f"frame/L2/{short}/read_entity[arbitrary-input]", r, make_g, reg, faulty, out)
     return out
 
 
